@@ -1,4 +1,5 @@
 // appended to src/common/oti.rs (scratch copy only) -- Oti::max_transfer_length against what flute's own EXT_FTI writers can carry
+// @READY
 #[cfg(any(kani, test))]
 #[allow(dead_code, unused_imports, unused_macros)]
 mod verif_kani {
@@ -84,13 +85,13 @@ mod verif_kani {
         let oti = mk_oti(id, e, b);
         let r = oti.max_transfer_length();
         assert!(r as u64 <= wire_capacity(id));
-        vk_cover!(sel == 3 && r as u64 == wire_capacity(id));
-        vk_cover!(sel == 0 && r as u64 == wire_capacity(id));
+        vk_cover!(sel == 2 && r as u64 == wire_capacity(id));   // RS under-specified reaches the 48-bit cap
+        vk_cover!(sel == 3 && r as u64 > (1u64 << 39));          // RaptorQ comes close to (never reaches: 255 * 65535^2 < 2^40) its 40-bit cap
     }
 
     // @HARNESS id=C01.oti.max_transfer_length_within_wire_capacity.raptor tier=quick kind=K props=C01,C07 bound="Raptor; all E (16 bit), B <= 65535" timeout=1200
     /// same claim for Raptor (FEC Encoding ID 1): flute writes Raptor's F into 40 bits (alcraptor.rs:36 `transfer_length << 24`,
-    /// get_fti `>> 24`), max_transfer_length answers up to 2^48 - 1.
+    /// get_fti `>> 24`).  Kept as its own harness: it FAILED (E = B = 32768) while max_transfer_length capped Raptor at 2^48 - 1.
     #[cfg(kani)]
     #[kani::proof]
     #[kani::unwind(4)]
@@ -105,6 +106,7 @@ mod verif_kani {
         let oti = mk_oti(id, e, b);
         let r = oti.max_transfer_length();
         assert!(r as u64 <= wire_capacity(id));
+        vk_cover!(r as u64 == wire_capacity(id));   // the 40-bit cap is reached (E = B = 32768 ...)
     }
 
     // @HARNESS id=C01.oti.max_transfer_length_is_min_of_capacity_and_blocks tier=quick kind=K props=C01,C07 bound="every scheme except RS GF(2^m); all E (16 bit), B <= 65535" timeout=1200
